@@ -94,7 +94,8 @@ _W += [gen_valid.render({"defs": defs}, "plain") for _n, _l, defs in _NS]
 _RS = [f for f in gen_valid.repeated_spread_forms(random.Random(7)) if f[0].split("-")[-1] in ("adjacent", "nested")]
 _W += [gen_valid.render({"defs": defs}, "plain") for _n, _l, _o, defs in _RS]
 # seeded C05-e: the first spread of a selection set is reached through an inline fragment
-_CP = [f for f in gen_valid.conflict_placement_forms(random.Random(7)) if "earlier" not in f[0] or "inline-typed" in f[0]]
+_CP = [f for f in gen_valid.conflict_placement_forms(random.Random(7))
+       if ("earlier" not in f[0] or "inline-typed" in f[0]) and ("deep" not in f[0] or f[0].startswith("inline"))]
 _W += [gen_valid.render({"defs": defs}, "plain") for _n, defs in _CP]
 # seeded C05-a: a fragment's field node is the first of two merged nodes at two places
 _MERGE = ("{ a: anchor(req: 1, inn: {v: 1}, lnn: [1]) { ...MF self { name } } "
